@@ -99,6 +99,12 @@ Definition run_tls (c : list N) : list N :=
       let t := mkT (issuer_of sc) (nm =? 0) (negb (sk =? 0)) (ccert_of cc) (negb (ca =? 0)) in
       [b2n (reaches t); b2n (server_asks t)]
   | 2 :: cert :: ca :: r => irun (mkI (cert, ca) []) (parse_iev r)
+  | [5; cert; n; bad] =>
+      (* the same with, when [bad] is set, a reload that fails before each good one: the identity stays (reached with
+         the right client certificate, same certificate seen), and the following good reload takes effect *)
+      flat_map (fun i => [1; (cert + N.of_nat i) mod 3; 0; 1] ++
+                         (if negb (bad =? 0) && (N.of_nat i <? n) then [1; (cert + N.of_nat i) mod 3] else []))
+               (seq 0 (S (N.to_nat n)))
   | [5; cert; n] =>
       (* the identity replaced n times through the server's own reload path, the client CA staying configured:
          per round: reached with the right client certificate, certificate seen, reached without one, asked *)
